@@ -62,7 +62,8 @@ def main():
             if a.runs:
                 cmd += ["--runs", str(a.runs)]
             t0 = time.time()
-            p = sh(cmd, env=dict(os.environ, VERIF_REPO=wt, VERIF_REPLAY_DIR=rep))
+            p = sh(cmd, env=dict(os.environ, VERIF_REPO=wt, VERIF_REPLAY_DIR=rep,
+                                 VERIF_STOP_AFTER_VIOLATIONS=os.environ.get("VERIF_STOP_AFTER_VIOLATIONS", "6")))
             sigs = [ln.split("signature:")[1].strip() for ln in p.stdout.splitlines() if "signature:" in ln]
             msgs = [ln.split("message:")[1].strip()[:300] for ln in p.stdout.splitlines() if "message:" in ln]
             mins = [ln.strip() for ln in p.stdout.splitlines() if "minimised:" in ln]
